@@ -320,10 +320,11 @@ def prune(terms, k=1, coarse=False):
         if e[0] == "R":
             own = ty(e[2]).inputs
             extra = (any(n not in own for n, _ in e[3]),)
+        lazy_bit = any(d[0] == "real" for d in t.inputs.values())  # a real-valued free input keeps the term lazy
         if coarse == 2:
-            key = (lang.head(e), extra, t.out[0] == "real", len(t.out[1]))
+            key = (lang.head(e), extra, t.out[0] == "real", len(t.out[1]), lazy_bit)
         else:
-            key = (lang.head(e), extra, len(t.inputs) if coarse else tuple(sorted(t.inputs)), t.out)
+            key = (lang.head(e), extra, len(t.inputs) if coarse else tuple(sorted(t.inputs)), t.out, lazy_bit)
         n = buckets.get(key, 0)
         if n < k:
             buckets[key] = n + 1
